@@ -203,6 +203,15 @@ ItemsLoops == {ITEM("a", 0), ITEM("b", 0)}
 \* C02: loop status rules (TickLimit = 3)
 AlphaLoops2 == {MK1, TICK, CNT(1), T0("while"), T0("seq"), T0("or"), T0("and")}
 
+\* C02: nested loops, break/continue levels (few tokens, larger bound)
+AlphaNest == {MK0, TICK, BRK(1), BRK(2), CNT(1), CNT(2), FOR("ab"), T0("while"), T0("until"), T0("seq")}
+
+\* C02: long and-or lists
+AlphaAndOr4 == {MK0, MK1, PR, T0("and"), T0("or"), T0("not")}
+
+\* C02: functions called from loops, return
+AlphaFnLoop == {MK0, PR, DEFN("f"), CMD("f"), RET(5), RET(-1), BRK(1), FOR("ab"), T0("seq"), T0("and"), T0("not")}
+
 \* C02: functions, return, command search
 AlphaFuncs ==
   {MK0, MK1, PR, RET(-1), RET(5), RET(0), EXIT(4), BRK(1), CMD("f"), CMD("g"), CMD("true"),
@@ -239,6 +248,12 @@ AlphaErrors5 ==
 \* definition, a call and an observer: size 6)
 AlphaErrFn ==
   {MK0, MK1, CMD("f"), RXE(CMD("f")), DEFN("f"), T0("rx"), T0("seq"), T0("or"), T0("sub")}
+
+\* C10: errexit across subshell boundaries and in exempt contexts (few tokens, larger bound)
+AlphaErrSub == {MK0, MK1, T0("sub"), T0("pipe"), T0("seq"), T0("not"), T0("and"), T0("or"), T0("if")}
+
+\* C10: errexit and functions called from exempt contexts
+AlphaErrFun == {MK0, MK1, DEFN("f"), CMD("f"), RET(5), T0("seq"), T0("not"), T0("and"), T0("if"), T0("sub")}
 
 \* C10: syntax error on a later line
 AlphaSyn ==
